@@ -104,6 +104,16 @@ def select_protocol(major: int, minor: int) -> str:
     return best
 
 
+def version_shape(v) -> str:
+    if v is None:
+        return "none"
+    comps = v.split(".")
+    shape = f"{len(comps)}comp"
+    if len(comps) >= 3 and all(c == "0" for c in comps[2:]):
+        shape += "-zero-tail"
+    return shape
+
+
 def version_class(payload: str):
     """-> ("strict", proto) | ("prefix", proto) | ("garbage", None)"""
     m = STRICT_VERSION.match(payload)
@@ -552,7 +562,8 @@ class Model:
         if obs.version != self.version:
             d.append(("version", "reported-version-differs", f"want {self.version!r} got {obs.version!r}"))
         if obs.proto != self.proto:
-            d.append(("version", f"rules:{self.version}->{obs.proto}", f"want {self.proto} got {obs.proto}"))
+            d.append(("version", f"rules-differ:{version_shape(self.version)}",
+                      f"reported {self.version!r}: want rules {self.proto} got {obs.proto}"))
 
         # ---------------- registry (C04) ----------------
         self._check_registry(obs, d, f"cmd{cmd}")
@@ -572,14 +583,23 @@ class Model:
             d.append(("writes.query", "query-unexpected", f"after {fields} version={version_before!r}"))
 
     def _check_loose_version(self, loose, payload, obs, d, line):
+        """A report that is not of the form a.b[.c[.d]].
+
+        Rejected (the step raised) => the (version, rules) pair must be what it was before.
+        Accepted (the step yielded) => unchanged, or version == payload with rules matching the
+        numeric a.b prefix when there is one (no prefix: any supported rules, the reading is the
+        implementation's business).
+        """
         before = (self.version, self.proto)
         after = (obs.version, obs.proto)
-        if after == before:
+        if after == before or loose == "version-from-nonzero-node":
             return
         kind, proto = version_class(payload)
-        if kind == "prefix" and after == (payload, proto):
+        if obs.kind != "ok":
+            d.append(("version", f"changed-by-rejected-{kind}-report",
+                      f"before {before} after {after} payload {payload!r} outcome {obs.cls}"))
             return
-        if loose == "version-from-nonzero-node":
+        if obs.version == payload and obs.proto in ORDER and (kind != "prefix" or obs.proto == proto):
             return
         d.append(("version", f"inconsistent-after-{kind}-report",
                   f"before {before} after {after} payload {payload!r}"))
